@@ -159,10 +159,36 @@ def bounds(a, thorough):
             'case_split': 'month (12) x expression kind (exact, last, >=, <=) x admitted day range', 'loop_unwinding': 64}
 
 
+def python_part(kc):
+    import c18_py
+    tasks = [dict(name='py/month=%02d/kind=%d' % (M, k), month=M, kind=k) for M in range(1, 13) for k in range(4)]
+    res = kc.run_items(tasks, jobs=16, fn=c18_py.worker)
+    kc.results = [r for r in kc.results if 'obligations' in r]
+    tot = {'paths': 0, 'queries': 0, 'unsat': 0, 'unknown': 0, 'solver_time': 0.0}
+    for r in res:
+        if r['error']:
+            kc.inconclusive.append('%s: %s' % (r['name'], r['error']))
+            continue
+        for k in tot:
+            tot[k] += r[k]
+        if r['unknown']:
+            kc.inconclusive.append('%s: %d python-side queries unknown' % (r['name'], r['unknown']))
+        M, kind = int(r['name'].split('month=')[1][:2]), int(r['name'][-1])
+        for (what, mdl) in r['sat']:
+            ok = c18_py.concrete_confirm(mdl, M, kind, what)
+            kc._record('python:%s:month=%d:%s' % (what.split(':')[0], M, KINDS[kind]),
+                       'python side, month %d, %s: %s for %s' % (M, KINDS[kind], what, mdl), ok, {'values': mdl, 'month': M, 'kind': kind})
+    kc.extra_coverage['python_side'] = dict(tot, functions=['tzdb.transformer.calc_day_of_month', 'tzdb.transformer._days_in_month',
+                                                            'Transformer._create_rules_with_on_day_expansion (admission filter)'],
+                                            stubs=['datetime.date -> calendar-spec stand-in (isoweekday via spec tables, ValueError for a '
+                                                   'non-existent day)', '_parse_on_day_string -> returns the symbolic (weekday, day) pair'],
+                                            samples=[s for r in res for s in r.get('samples', [])][:3])
+
+
 if __name__ == '__main__':
     common.simple_kernel_main(
         'C18', ['h_c18.cpp'], items,
         'one obligation = path condition AND negated (C++ result == calendar spec) / (admitted => answer in the same '
         'year) / UB trap, over symbolic year, weekday and day-of-month; distinct = (month, kind, range, path, obligation)',
         bounds, outside=['years outside 1873..2126', 'ON day numbers above the month length (rejected by zic itself)'],
-        jobs=12, spec_concrete=spec_concrete)
+        jobs=12, spec_concrete=spec_concrete, post_run=python_part)
